@@ -26,6 +26,9 @@ pub struct CCfg {
     /// one long stall (ms) with the queue full and callers blocked: exposes timed waits in the send
     /// path. Virtual (free) under Miri, rare natively.
     pub long_stall_ms: u64,
+    /// drop-policy scenarios: stop() right after the burst, without draining (the exit marker then
+    /// goes through the policy on a full queue; only conservation is judged)
+    pub no_drain: bool,
 }
 
 pub fn gen(rng: &mut Rng, tiny: bool, focus: &str) -> CCfg {
@@ -58,7 +61,8 @@ pub fn gen(rng: &mut Rng, tiny: bool, focus: &str) -> CCfg {
         ep: (0..4).map(|_| rng.below(n_ep) as u32).collect(),
         perturb: if gated { rng.below(2) as u8 } else { 2 },
         grace_us: if tiny { 0 } else { *rng.pick(&[0u64, 200, 1000, 3000]) },
-        long_stall_ms: if cfg!(miri) { 40_000 } else if !tiny && variant == 0 && rng.chance(1, 300) { *rng.pick(&[1100u64, 2300, 3600]) } else { 0 },
+        no_drain: !c05 && rng.chance(1, 3),
+        long_stall_ms: if cfg!(miri) { 40_000 } else if !tiny && variant == 0 && rng.chance(1, 800) { *rng.pick(&[1100u64, 2300, 3600]) } else { 0 },
     }
 }
 
@@ -75,6 +79,7 @@ pub fn describe(c: &CCfg) -> J {
         ("entry_points", J::A(c.ep.iter().map(|e| J::s(EP_NAMES[*e as usize])).collect())),
         ("grace_us", J::U(c.grace_us)),
         ("long_stall_ms", J::U(c.long_stall_ms)),
+        ("stop_without_draining", J::B(c.no_drain)),
     ])
 }
 
@@ -188,11 +193,14 @@ pub fn execute(c: &CCfg, seed: u64) -> W {
         }
         // drain before stop so that the exit marker's own (legitimate, counted) eviction does not
         // blur the survivor set: wait for the reducer to go idle on the expected number of actions
-        if c.policy != POL_BLOCK {
+        if c.policy != POL_BLOCK && !c.no_drain {
             if c.variant == 2 {
                 // every survivor of the burst notifies the sentinel (scripts are plain Dispatch)
                 let expect = 1 + (c.cap as u64).min(total);
-                notified.wait_at_least(expect, 2);
+                if notified.wait_at_least(expect, 2) {
+                    // drained: the exit marker cannot evict a survivor any more
+                    w.mark(5, 0);
+                }
             } else {
                 let t0 = std::time::Instant::now();
                 let mut last = (0u64, std::time::Instant::now());
@@ -367,7 +375,7 @@ pub fn c06(h: &Hist, w: &W, s: u8, v: &mut Verdicts) {
         let all_inside = burst.iter().all(|(_, d)| d.inv > b && d.ret < e);
         // the exit marker goes through the store's own policy: if stop() was invoked before the
         // survivors had been taken, its (legitimate, counted) eviction blurs the survivor set
-        let drained = sh.taken.iter().all(|a| sh.acts[a].first < close_inv);
+        let drained = h.evs.iter().any(|e| e.k == K::Mark && e.idx == 5 && e.seq < close_inv);
         if all_inside && n > 0 && !drained {
             v.count("c06.gated_bursts_not_drained_before_stop", 1);
         }
